@@ -1,12 +1,14 @@
 (* C03 -- Lax and warn modes suppress errors without changing correct output.  Property theorems only.
-   The model (Recover.v) is the parser's and the render loop's error handling under Mode.STRICT / WARN / LAX over the token
+   The model (Recover.v; all standard tags and the liquid.extra tags) is the parser's and the render loop's error handling under Mode.STRICT / WARN / LAX over the token
    stream of the template lexer; a log records the warnings a run emitted and the errors Environment.error did not re-raise. *)
 From Coq Require Import String.
 From LiquidVerif Require Import Prelude Recover Recover_Proofs.
 Local Open Scope string_scope. Local Open Scope list_scope.
 
-(* lax mode: EVERY token stream parses, whatever the block nesting limit, and no warning is issued *)
-Theorem C03_lax_parse_total : forall lim ts, exists b l, parse Lax lim ts = Ok (b, l) /\ emitted l = [].
+(* lax mode: EVERY token stream parses, whatever the block nesting limit, and no warning is issued; the only exception that can
+   leave the parser is a non-Liquid one raised by an expression parser (Tag.get_node catches LiquidError only; see C02) *)
+Theorem C03_lax_parse_total : forall lim ts,
+  (exists b l, parse Lax lim ts = Ok (b, l) /\ emitted l = []) \/ (exists e, parse Lax lim ts = Err e /\ is_liquid e = false).
 Proof. exact lax_parse_total. Qed.
 Print Assumptions C03_lax_parse_total.
 
@@ -21,16 +23,17 @@ Print Assumptions C03_lax_render_total.
 Theorem C03_lax_never_raises_liquid : forall lim ts,
   match run_recover (mk_case Lax lim ts) with
   | OOut _ n => n = 0
-  | ORenderErr e => is_liquid e = false
-  | _ => False
+  | OParseErr e | ORenderErr e => is_liquid e = false
+  | OFuel => False
   end.
 Proof. exact run_lax_never_raises_liquid. Qed.
 Print Assumptions C03_lax_never_raises_liquid.
 
 (* warn mode parses to the same tree as lax mode, and its warnings are exactly the errors lax mode suppressed, in order *)
 Theorem C03_warn_is_lax_plus_warnings : forall lim ts,
-  exists b l, parse Lax lim ts = Ok (b, l) /\ emitted l = [] /\
-              parse Warn lim ts = Ok (b, {| emitted := suppressed l; suppressed := suppressed l |}).
+  (exists b l, parse Lax lim ts = Ok (b, l) /\ emitted l = [] /\
+               parse Warn lim ts = Ok (b, {| emitted := suppressed l; suppressed := suppressed l |})) \/
+  (exists e, parse Lax lim ts = Err e /\ parse Warn lim ts = Err e /\ is_liquid e = false).
 Proof. exact warn_parse_is_lax_parse. Qed.
 Print Assumptions C03_warn_is_lax_plus_warnings.
 
@@ -44,13 +47,17 @@ Print Assumptions C03_warn_render_is_lax_plus_warnings.
 
 (* the observable form: same text, and the number of warnings is the number of errors suppressed while parsing and rendering *)
 Theorem C03_warn_run_is_lax_run : forall lim ts,
-  exists b l1, parse Lax lim ts = Ok (b, l1) /\
-    match render Lax b with
-    | Ok (t, l2) => run_recover (mk_case Lax lim ts) = OOut t 0 /\
-                    run_recover (mk_case Warn lim ts) = OOut t (List.length (suppressed l1) + List.length (suppressed l2))
-    | Err e => run_recover (mk_case Lax lim ts) = ORenderErr e /\ run_recover (mk_case Warn lim ts) = ORenderErr e /\ is_liquid e = false
-    | OutOfFuel => False
-    end.
+  match parse Lax lim ts with
+  | Ok (b, l1) =>
+      match render Lax b with
+      | Ok (t, l2) => run_recover (mk_case Lax lim ts) = OOut t 0 /\
+                      run_recover (mk_case Warn lim ts) = OOut t (List.length (suppressed l1) + List.length (suppressed l2))
+      | Err e => run_recover (mk_case Lax lim ts) = ORenderErr e /\ run_recover (mk_case Warn lim ts) = ORenderErr e /\ is_liquid e = false
+      | OutOfFuel => False
+      end
+  | Err e => run_recover (mk_case Lax lim ts) = OParseErr e /\ run_recover (mk_case Warn lim ts) = OParseErr e /\ is_liquid e = false
+  | OutOfFuel => False
+  end.
 Proof. exact run_warn_is_lax. Qed.
 Print Assumptions C03_warn_run_is_lax_run.
 
@@ -72,10 +79,25 @@ Theorem C03_strict_success_invariant : forall lim ts t n,
 Proof. exact run_strict_invariant. Qed.
 Print Assumptions C03_strict_success_invariant.
 
-(* the parser's loops always advance: with one unit of fuel more than there are tokens no mode ever runs out (also C09) *)
-Theorem C03_parse_progress : forall m lim f ts, S (List.length ts) <= f -> parse_fuel m lim f ts <> OutOfFuel.
+(* the parser's loops always advance: with one unit of fuel more than there are tokens (those inside liquid tags included) no mode ever runs out (also C09) *)
+Theorem C03_parse_progress : forall m lim f ts, S (tsize ts) <= f -> parse_fuel m lim f ts <> OutOfFuel.
 Proof. exact parse_progress. Qed.
 Print Assumptions C03_parse_progress.
+
+(* the two defects repaired for this property, as they were (fixes C03-when-list-strict, C03-lax-parse-stack-depth; the check
+   reproduces both on a tree without the repairs) *)
+Theorem C03_when_list_old_refuted :
+  let rs := RVal [] 0 in let rl := RVal [] 1 in
+  let ts := fun m => [TTag Ncase; TExpr (XOk (RVal [] 1)); TTag Nwhen; TExpr (XOk (when_value_old m rs rl)); TContent [104%N]; TTag Nendcase] in
+  run_recover (mk_case Strict 30 (ts Strict)) = OOut [] 0 /\ run_recover (mk_case Lax 30 (ts Lax)) = OOut [104%N] 0.
+Proof. exact when_list_old_refuted. Qed.
+Print Assumptions C03_when_list_old_refuted.
+
+Theorem C03_deep_nesting_old_refuted :
+  parse Lax 30 [TOutput; TExpr (XBad ERecursionError)] = Err ERecursionError /\
+  parse Lax 30 [TOutput; TExpr (XBad EContextDepth)] = Ok (BCons NIllegal BNil, {| emitted := []; suppressed := [EContextDepth] |}).
+Proof. exact deep_nesting_old_refuted. Qed.
+Print Assumptions C03_deep_nesting_old_refuted.
 
 (* ---- non-vacuity and reading aids (tests, not theorems) ---- *)
 Definition s (x : String.string) : str := slit x.
@@ -110,3 +132,20 @@ Example C03_strict_only_example :
   let ts := [TOutput; TExpr (XStrictOnly (RVal (s "S") 1))] in
   run_recover (mk_case Strict 30 ts) = OParseErr ESyntax /\ run_recover (mk_case Warn 30 ts) = OOut (s "S") 0.
 Proof. vm_compute. split; reflexivity. Qed.
+
+(* a malformed macro tag has no end tag to recover to (Tag.end is the empty string): everything after it is dropped *)
+Example C03_bad_macro_swallows_the_rest :
+  run_recover (mk_case Lax 30 [TContent (s "a"); TTag Nmacro; TContent (s "b"); TTag Nendmacro; TContent (s "c")]) = OOut (s "a") 0.
+Proof. vm_compute. reflexivity. Qed.
+
+(* a liquid tag: the inner unknown line is dropped, the rest of the block survives; an unclosed inner if drops what follows it *)
+Example C03_liquid_example :
+  let e := [TTag Necho; TExpr (XOk (RVar (s "O") 1))] in
+  run_recover (mk_case Warn 30 [TTag Nliquid; TLiquid (Some (e ++ [TTag Nunknown] ++ e))]) = OOut (s "OO") 1 /\
+  run_recover (mk_case Warn 30 [TTag Nliquid; TLiquid (Some (e ++ [TTag Nif; TExpr (XOk (RVar [] 1))] ++ e))]) = OOut (s "O") 1.
+Proof. vm_compute. split; reflexivity. Qed.
+
+(* translate: an inner error is suppressed, then the message validation rejects the IllegalNode it left: two warnings *)
+Example C03_translate_example :
+  run_recover (mk_case Warn 30 [TTag Ntranslate; TContent (s "a"); TTag Nunknown; TTag Nendtranslate; TContent (s "b")]) = OOut (s "b") 2.
+Proof. vm_compute. reflexivity. Qed.
